@@ -24,11 +24,41 @@ class Dyn:
     __slots__ = ("src", "parts")
 
     def __init__(self, src, parts=None):
+        if len(src) > SHARE_ABOVE:
+            # a long subexpression is named once and referred to by name: nested conditionals on the same value (a loop that
+            # stops at the first hit, unrolled) stay linear in size instead of repeating the value at every level
+            name = SHARED.get(src)
+            if name is None:
+                name = "_t%d" % len(SHARED)
+                SHARED[src] = name
+            src = name
         self.src = src
         self.parts = parts
 
     def __repr__(self):
         return "Dyn(%s)" % self.src
+
+
+SHARE_ABOVE = 200
+SHARED = {}          # source text -> temporary name, in order of creation (reset by every Specialiser)
+
+
+def closed_src(v):
+    """the residual expression of v with the shared subexpressions it uses bound first:
+    ((_t0 := ...), (_t1 := ...), ..., <expression>)[-1]"""
+    import re
+    text = src(v)
+    by_name = {n: t for t, n in SHARED.items()}
+    need, todo = set(), [text]
+    while todo:
+        for n in re.findall(r"\b_t\d+\b", todo.pop()):
+            if n not in need:
+                need.add(n)
+                todo.append(by_name[n])
+    if not need:
+        return text
+    order = sorted(need, key=lambda n: int(n[2:]))
+    return "(%s, %s)[-1]" % (", ".join("(%s := %s)" % (n, by_name[n]) for n in order), text)
 
 
 class Unbound:
@@ -79,8 +109,9 @@ def vkey(v):
 
 
 class Closure:
-    def __init__(self, node, env, mod_funcs=False):
+    def __init__(self, node, env, mod_funcs=False, bound=False):
         self.node, self.env = node, env
+        self.bound = bound          # a method with its first parameter already in env
 
 
 def ite(c, a, b):
@@ -88,6 +119,8 @@ def ite(c, a, b):
         return a if c else b
     if vkey(a) == vkey(b):
         return a
+    if hasattr(a, "nt_fields") or hasattr(b, "nt_fields"):
+        return Poison("a record value depends on the reflection")
     if isinstance(a, (list, tuple)) and isinstance(b, (list, tuple)) and len(a) == len(b):
         return type(a)(ite(c, x, y) for x, y in zip(a, b))
     if isinstance(a, (Closure, Poison)) or isinstance(b, (Closure, Poison)):
@@ -147,6 +180,7 @@ class Specialiser:
         self.mod = mod
         self.depth = 0
         self.max_depth = max_depth
+        SHARED.clear()
 
     # ------------------------------------------------------------------ API
     def specialise(self, fname, args):
@@ -161,6 +195,8 @@ class Specialiser:
             raise AnalysisError("E8: unsupported signature of %s" % getattr(fn, "name", "<lambda>"))
         params = [x.arg for x in a.args]
         env = dict(closure_env)
+        if params and params[0] in closure_env and getattr(self, "_calling_bound", False):
+            params = params[1:]
         nd = len(a.defaults)
         for i, p in enumerate(params):
             if i < len(args):
@@ -183,6 +219,57 @@ class Specialiser:
         finally:
             self.depth -= 1
         return env["$val"]
+
+    # ------------------------------------------------------ static data of the module
+    def module_constant(self, name):
+        """a module-level table: evaluated once by the full interpreter (helper calls, named tuples, comprehensions, operator /
+        itertools / functools models) and imported as static data; lambdas and local functions in it become closures that
+        are specialised where they are applied"""
+        cache = self.__dict__.setdefault("_consts", {})
+        if name in cache:
+            return cache[name]
+        try:
+            from .objeval import FullEvaluator
+            cache[name] = self.import_static(FullEvaluator(self.mod, max_depth=10).module_constant(name))
+        except AnalysisError as e:
+            try:
+                cache[name] = self.eval(self.mod.assigns[name].value, {})
+            except AnalysisError:
+                raise AnalysisError("E8: module-level constant %s cannot be evaluated: %s" % (name, e))
+        return cache[name]
+
+    def import_static(self, v, depth=0):
+        from fractions import Fraction
+        from .poly import Rat
+        from .symeval import Arr, NTuple
+        if depth > 12:
+            raise AnalysisError("E8: static table nested too deeply")
+        if v is None or isinstance(v, (bool, str, int)):
+            return v
+        if isinstance(v, Rat):
+            if not v.is_const():
+                raise AnalysisError("E8: a static table holds a symbolic value")
+            c = Fraction(v.const_value())
+            return int(c) if c.denominator == 1 else c
+        if isinstance(v, Arr):
+            return self.import_static(v.data, depth + 1)
+        if isinstance(v, NTuple):
+            return NTuple(v.nt_name, v.nt_fields, [self.import_static(x, depth + 1) for x in v], klass=getattr(v, "cls", None))
+        if isinstance(v, tuple) and len(v) == 3 and v[0] == "closure":
+            return Closure(v[1], {k: self.import_static(x, depth + 1) for k, x in v[2].items() if not k.startswith("$")})
+        if isinstance(v, tuple) and len(v) == 2 and v[0] == "function" and v[1] in self.mod.functions:
+            return Closure(self.mod.functions[v[1]], {})
+        if isinstance(v, tuple) and len(v) == 2 and v[0] == "builtin":
+            return ("builtin", v[1])
+        if isinstance(v, tuple) and v and isinstance(v[0], str) and v[0] in ("partial",):
+            raise AnalysisError("E8: functools.partial in a static table")
+        if isinstance(v, tuple):
+            return tuple(self.import_static(x, depth + 1) for x in v)
+        if isinstance(v, list):
+            return [self.import_static(x, depth + 1) for x in v]
+        if isinstance(v, dict):
+            return {k: self.import_static(x, depth + 1) for k, x in v.items()}
+        raise AnalysisError("E8: a static table holds a %s" % type(v).__name__)
 
     # ----------------------------------------------------------- statements
     def stopped(self, env):
@@ -343,7 +430,7 @@ class Specialiser:
         if node.id in ("abs", "len", "range", "int", "list", "tuple", "all", "any", "sum", "min", "max", "bool", "divmod"):
             return ("builtin", node.id)
         if node.id in getattr(self.mod, "assigns", {}):
-            return self.eval(self.mod.assigns[node.id].value, {})
+            return self.module_constant(node.id)
         if node.id in self.mod.np_alias:
             return ("numpy",)
         raise AnalysisError("E8: unbound name %s (line %d)" % (node.id, node.lineno))
@@ -462,6 +549,14 @@ class Specialiser:
         base = self.eval(node.value, env)
         if base == ("numpy",):
             return ("npfunc", node.attr)
+        if hasattr(base, "nt_fields") and node.attr in base.nt_fields:
+            return base[base.nt_fields.index(node.attr)]
+        if hasattr(base, "nt_fields") and getattr(base, "cls", None) is not None:
+            for n_ in base.cls.body:
+                if isinstance(n_, ast.FunctionDef) and n_.name == node.attr:
+                    if any(unparse(d).split(".")[-1] == "property" for d in n_.decorator_list):
+                        return self.call_def(n_, [base], {}, {})
+                    return Closure(n_, {n_.args.args[0].arg: base}, bound=True)
         return ("method", base, node.attr)
 
     def e_ListComp(self, node, env):
@@ -492,7 +587,11 @@ class Specialiser:
         if None in kwargs:
             raise AnalysisError("E8: ** call (line %d)" % node.lineno)
         if isinstance(f, Closure):
-            return self.call_def(f.node, args, kwargs, f.env)
+            self._calling_bound = bool(getattr(f, "bound", False))
+            try:
+                return self.call_def(f.node, args, kwargs, f.env)
+            finally:
+                self._calling_bound = False
         if isinstance(f, tuple) and f[0] == "builtin":
             return self.builtin(f[1], args, node)
         if isinstance(f, tuple) and f[0] == "npfunc":
